@@ -52,6 +52,9 @@ def leaf_scan(E, params):
             for b in fixed.get(i, fixed.get(str(i))): m |= 1 << b
         v = E.new_var(m, 'b%d' % i); cells.append(IntV(8, sym.var_node(v)))
     cpu = install_cpu(E) if 'runtime' in fn else None
+    entered = []
+    if cpu is not None:
+        E.hooks['call'] = lambda path, f, args: entered.append(f.name.split('::')[0]) if (f is not None and f.name.startswith(('avx2::', 'sse42::'))) else None
     bytes_new = E.by_method[(None, 'Bytes', 'new')]
     bv = E.call_func(bytes_new, [Ref(cells, (0,), L, 'buf')])
     box = [bv]
@@ -62,6 +65,8 @@ def leaf_scan(E, params):
         E.call_func(f, [Ref(box, (0,), None, 'local')])
     except Panic as e:
         panic = e
+    finally:
+        E.hooks.pop('call', None)
     viol = []; nobl = 0
     I = FakeInst(cells, params)
     Lf = Leaf(E, I, params.get('prop', 'C12'))
@@ -79,6 +84,9 @@ def leaf_scan(E, params):
             Lf.byte_in(cells[pos], sym.MASK256 & ~cls, f'{fn}: stopped at {pos} of {L} although that byte is in the class')
         if cpu is not None:
             for b in cpu['bad']: Lf.concrete(False, b)
+            for nm in set(entered):
+                has = cpu['kind'] is not None and cpu['kind'][0 if nm == 'avx2' else 1]
+                Lf.concrete(bool(has), f'the dispatcher entered a #[target_feature(enable = "{nm}")] function on a CPU without that feature (cell schedule: any interleaving)')
     vs = Lf.finish(None)
     for v in vs: fix_violation(v, params, E)
     lab = 'PANIC' if panic else ('stop:end' if pos == L else 'stop:inside')
